@@ -69,6 +69,7 @@ class Result:
         self.covers_sat = 0
         self.covers_total = 0
         self.log = ""
+        self.shard = None
 
 
 # ------------------------------------------------------------------------------------
@@ -298,8 +299,12 @@ def run_shard(idx, workdir, template_tgt, prelude, items, tables_rs, harness_tim
             r.status, r.reason = "inconclusive", "harness not reached (earlier crash/timeout in shard)"
         else:
             parse_result(r, b)
-    # keep the crate (tiny) for replay; drop the build output
-    shutil.rmtree(tgt, ignore_errors=True)
+    # keep the build output only when a harness failed (the replay re-runs it there without rebuilding)
+    if any(r.status == "fail" for r in results.values()):
+        for r in results.values():
+            r.shard = (crate, tgt, cbmc_args)
+    else:
+        shutil.rmtree(tgt, ignore_errors=True)
     return results
 
 
